@@ -256,6 +256,18 @@ pub fn run(thorough: bool) -> i32 {
             }
         }
     }
+    // many-block objects: block counts around the receiver's pre-allocation limits (2048 and 2 x 2048 blocks),
+    // the sender cuts N blocks and the receiver must believe in N as well
+    for scheme in [Scheme::NoCode, Scheme::Rs28, Scheme::Rs28Us, Scheme::RaptorQ, Scheme::Raptor] {
+        let (b, e) = if scheme == Scheme::Raptor { (4u16, 1u16) } else { (1, 1) };
+        let counts: &[usize] = if thorough { &[2047, 2048, 2049, 2050, 3000, 4095, 4096, 4097, 4098, 6145, 8193] } else { &[2048, 2049, 4097] };
+        for &n in counts {
+            acases.push((scheme, 0u8, b, e, n * b as usize, 0u8));
+            if thorough {
+                acases.push((scheme, 0u8, b, e, n * b as usize - 1, 0u8));
+            }
+        }
+    }
     let na = acases.len() as u64;
     let ares = par_map(&acases, |_, (sc, sk, b, e, l, ce)| sender_receiver_agree(*sc, *sk, *b, *e, *l, *ce));
     for ((sc, sk, b, e, l, ce), r) in acases.iter().zip(ares) {
